@@ -253,6 +253,44 @@ theorem group_normalization_deprecated_counterexample :
     conformsTo pinnedGroupNorm (undeprecate pinnedGroupNormSchema ["@deprecated"]) = true := by
   decide +kernel
 
+/-! ## outputs: every declared output is always emitted
+
+`Node._init_output_vars` creates a Var for every declared output, so — unlike inputs — an optional
+output can never be omitted and nothing is ever trimmed from the output list. For almost all
+schemas that is harmless; `BatchNormalization` is the exception (known finding): its ONNX inference
+demands exactly one output when `training_mode = 0`. -/
+
+theorem initOutputs_present (outs : List (String × FieldKind)) (nvar : Nat) :
+    ∀ x ∈ flatten (initOutputs outs nvar), x ≠ none := by
+  induction outs with
+  | nil => simp [initOutputs, flatten]
+  | cons f rest ih =>
+    obtain ⟨n, k⟩ := f
+    have ih' : ∀ x ∈ flatten (initOutputs rest nvar), x ≠ none := ih
+    cases k <;> simp only [initOutputs, List.map_cons, flatten] <;> intro x hx
+    · rcases List.mem_cons.mp hx with h | h
+      · simp [h]
+      · exact ih' x h
+    · rcases List.mem_cons.mp hx with h | h
+      · simp [h]
+      · exact ih' x h
+    · rcases List.mem_append.mp hx with h | h
+      · obtain ⟨y, _, rfl⟩ := List.mem_map.mp h; simp
+      · exact ih' x h
+
+/-- **outputs_never_omitted.** Whatever `min_output` is, the emitted output list is the full list
+    of declared outputs (optional ones included, the variadic one expanded to `out_variadic`). -/
+theorem outputs_never_omitted (minN : Nat) (outs : List (String × FieldKind)) (nvar : Nat) :
+    emitSlots minN (initOutputs outs nvar) = flatten (initOutputs outs nvar) :=
+  trim_all_present _ _ (initOutputs_present outs nvar)
+
+/-- **batchnorm_outputs_counterexample.** `BatchNormalization-15` declares
+    `Y, running_mean?, running_var?` (min_output 1); the constructor emits three output names, while
+    ONNX's inference for `training_mode = 0` (the default) accepts exactly one. -/
+theorem batchnorm_outputs_counterexample :
+    (emitSlots 1 (initOutputs [("Y", .single), ("running_mean", .optional), ("running_var", .optional)] 0)).length = 3 := by
+  decide
+
 /-! ## non-vacuity -/
 
 example : allPairs.length > 900 := by decide +kernel
